@@ -11,6 +11,7 @@ package stringy
 import (
 	"context"
 	"regexp"
+	"strings"
 
 	tq "github.com/facebookincubator/tacquito"
 	"github.com/facebookincubator/tacquito/cmds/server/config"
@@ -90,7 +91,8 @@ func (a CommandBasedAuthorizer) evaluate() bool {
 		}
 	}
 	for _, c := range a.user.Commands {
-		c.TrimSpace()
+		// trim into locals only; the rules are shared by every request of this user
+		c.Name = strings.TrimSpace(c.Name)
 		if c.Name == "*" {
 			// special condition of allow anything
 			return returnBool(c.Action)
@@ -104,6 +106,7 @@ func (a CommandBasedAuthorizer) evaluate() bool {
 		}
 
 		for _, regexish := range c.Match {
+			regexish = strings.TrimSpace(regexish)
 			if len(regexish) == 0 {
 				continue
 			}
